@@ -133,3 +133,11 @@ Print Assumptions machine_src_uses_selected_members.
 Theorem free_functions_closed : free_ok gen_free = true.
 Proof. exact free_lemma. Qed.
 Print Assumptions free_functions_closed.
+
+(* with the extracted table, and the extracted fact that the counter is a 64-bit signed integer *)
+Theorem seq_count_fits_64bit_counter_src : forall n l o, let s := run_t gen_table n l in
+  rc_width64 gen_rc = true /\
+  0 <= use_count s o <= 1 + Z.of_nat (length l) + Z.of_nat n /\
+  (1 + Z.of_nat (length l) + Z.of_nat n < 2 ^ 63 -> wrap64 (use_count s o) = use_count s o).
+Proof. exact (fun n l o => conj width_lemma (seq_count_bounded gen_table contracts_src_lemma n l o)). Qed.
+Print Assumptions seq_count_fits_64bit_counter_src.
